@@ -37,6 +37,7 @@ struct Ctl {
 	long cmp = -1, ctor = -1, repl = -1, filt = -1, alloc = -1;
 	bool fired = false;
 	long live = 0;	// element objects of the instrumented types alive
+	long swaps = 0;	// calls of the noexcept ADL swap of the swap-only types (KS / KSU / VS)
 	std::map<void*, size_t> blocks;
 	size_t badDealloc = 0;
 	void disarm() { cmp = ctor = repl = filt = alloc = -1; fired = false; }
@@ -115,6 +116,33 @@ struct KA {
 };
 inline bool operator<(const KA& a, const KA& b) { cmpPoint(); return a.k < b.k; }
 
+// copy-and-swap type: no move constructor (moving = the copy constructor, which may throw), assignment takes its argument by value,
+// noexcept ADL swap. Not nothrow relocatable, not nothrow move assignable, nothrow swappable: nothrow-anyway-assignable through
+// ObjectManager::pvAssignAnyway(swap variant) and nothrow shiftable, so TreeNode<..., continuous = true> really is contiguous and
+// shifts the items with ObjectManager::pvShiftNothrow(swap variant); an extraction whose relocation throws must shift the items
+// back (Node::pvRemove(..., isContinuous = true) catch). (gcc: a type that declares a move constructor counts as nothrow relocatable
+// for momo whether or not it is noexcept - MOMO_IS_NOTHROW_RELOCATABLE_APPENDIX - hence "no move constructor".)
+struct KS {
+	int k; int id; unsigned st;
+	KS(int k_ = 0, int id_ = 0) : k(k_), id(id_), st(0xA11CE) { ++g.live; }
+	KS(const KS& o) : k((ctorPoint(), o.k)), id(o.id), st(0xA11CE) { ++g.live; }
+	KS& operator=(KS o) { swap(*this, o); return *this; }
+	friend void swap(KS& a, KS& b) noexcept { int t = a.k; a.k = b.k; b.k = t; t = a.id; a.id = b.id; b.id = t; ++g.swaps; }
+	~KS() { if (st != 0xA11CE) abort(); st = 0xDEAD; --g.live; }
+};
+inline bool operator<(const KS& a, const KS& b) { cmpPoint(); return a.k < b.k; }
+
+// the same as a map key; not counted in g.live (the ledger of a map counts one object per pair: the value)
+struct KSU {
+	int k; unsigned st;
+	KSU(int k_ = 0) : k(k_), st(0xA11CE) {}
+	KSU(const KSU& o) : k((ctorPoint(), o.k)), st(0xA11CE) {}
+	KSU& operator=(KSU o) { swap(*this, o); return *this; }
+	friend void swap(KSU& a, KSU& b) noexcept { int t = a.k; a.k = b.k; b.k = t; ++g.swaps; }
+	~KSU() { if (st != 0xA11CE) abort(); st = 0xDEAD; }
+};
+inline bool operator<(const KSU& a, const KSU& b) { cmpPoint(); return a.k < b.k; }
+
 // map key: trivially relocatable int wrapper with the throwing comparison
 struct IK { int k; IK(int k_ = 0) : k(k_) {} };
 inline bool operator<(const IK& a, const IK& b) { cmpPoint(); return a.k < b.k; }
@@ -147,6 +175,22 @@ struct VC {
 	~VC() { if (st != 0xA11CE) abort(); st = 0xDEAD; --g.live; }
 };
 
+// mapped value of the copy-and-swap category
+struct VS {
+	int id; unsigned st;
+	VS(int id_ = 0) : id(id_), st(0xA11CE) { ++g.live; }
+	VS(const VS& o) : id((ctorPoint(), o.id)), st(0xA11CE) { ++g.live; }
+	VS& operator=(VS o) { swap(*this, o); return *this; }
+	friend void swap(VS& a, VS& b) noexcept { int t = a.id; a.id = b.id; b.id = t; ++g.swaps; }
+	~VS() { if (st != 0xA11CE) abort(); st = 0xDEAD; --g.live; }
+};
+
+// maps whose KEY copy is the fallible step of a pair's creation pass the mapped value as an rvalue (nothrow move), so that the creation
+// of a pair stays ONE `ctor` step as in the model
+template<class K> struct MoveVal { static const bool value = false; };
+template<> struct MoveVal<KSU> { static const bool value = true; };
+template<bool mv, class V> static typename std::conditional<mv, V&&, const V&>::type passVal(V& v) { return static_cast<typename std::conditional<mv, V&&, const V&>::type>(v); }
+
 template<class T> struct Counted { static const bool value = true; };
 template<> struct Counted<KT> { static const bool value = false; };
 
@@ -164,7 +208,7 @@ struct SetCf {
 	typedef momo::TreeSet<Item, Traits, TFMM, momo::TreeSetItemTraits<Item, TFMM>, SetNX> Cont;
 	typedef Cont Set;
 	static const bool isMap = false, multi = tMulti, reloc = tReloc, assign = tAssign, unsafeRepl = false, counted = Counted<TItem>::value;
-	static const bool hasCtor = Counted<TItem>::value;
+	static const bool hasCtor = Counted<TItem>::value, keyCtor = false;
 	static Set& set(Cont& c) { return c; }
 };
 
@@ -175,7 +219,7 @@ struct SetCfStd {	// non-empty traits class (holds the comparison object): Merge
 	typedef momo::TreeSet<Item, Traits, TFMM, momo::TreeSetItemTraits<Item, TFMM>, SetNX> Cont;
 	typedef Cont Set;
 	static const bool isMap = false, multi = tMulti, reloc = tReloc, assign = tAssign, unsafeRepl = false, counted = Counted<TItem>::value;
-	static const bool hasCtor = Counted<TItem>::value;
+	static const bool hasCtor = Counted<TItem>::value, keyCtor = false;
 	static Set& set(Cont& c) { return c; }
 };
 
@@ -186,7 +230,7 @@ struct MapCf {
 	typedef momo::TreeMap<Key, Val, Traits, TFMM, momo::TreeMapKeyValueTraits<Key, Val, TFMM>, MapNX> Cont;
 	typedef typename Cont::TreeSet Set;
 	static const bool isMap = true, multi = tMulti, reloc = tReloc, assign = tAssign, unsafeRepl = tUnsafe, counted = true;
-	static const bool hasCtor = true;
+	static const bool hasCtor = true, keyCtor = MoveVal<TKey>::value;	// keyCtor: the key's copy is a `ctor` step too (a copy of a pair = two steps: not in the model)
 	static Set& set(Cont& c) { return c.mTreeSet; }
 };
 
@@ -214,13 +258,16 @@ template<class Cf> struct Api<Cf, true> {
 	typedef typename Cont::ConstIterator It; typedef typename Cont::ExtractedPair Ext;
 	static int key(It it) { return it->key.k; }
 	static int id(It it) { return it->value.id; }
-	static std::pair<It, bool> insert(Cont& c, int k, int id) { Key key(k); Val v(id); auto r = c.Insert(key, v); return { It(r.position), r.inserted }; }
-	static It add(Cont& c, It hint, int k, int id) { Key key(k); Val v(id); return It(c.Add(hint, key, v)); }
+	static const bool mv = MoveVal<Key>::value;
+	static std::pair<It, bool> insert(Cont& c, int k, int id) { Key key(k); Val v(id); auto r = c.Insert(key, passVal<mv>(v)); return { It(r.position), r.inserted }; }
+	static It add(Cont& c, It hint, int k, int id) { Key key(k); Val v(id); return It(c.Add(hint, key, passVal<mv>(v))); }
 	static size_t insertRange(Cont& c, const std::vector<KI>& v) {
 		std::vector<std::pair<Key, Val>> items; items.reserve(v.size());
 		for (auto& x : v) items.emplace_back(std::piecewise_construct, std::forward_as_tuple(x.first), std::forward_as_tuple(x.second));
-		return c.Insert(items.begin(), items.end());
+		return insertRange(c, items, std::integral_constant<bool, mv>());
 	}
+	static size_t insertRange(Cont& c, std::vector<std::pair<Key, Val>>& items, std::false_type) { return c.Insert(items.begin(), items.end()); }
+	static size_t insertRange(Cont& c, std::vector<std::pair<Key, Val>>& items, std::true_type) { return c.Insert(std::make_move_iterator(items.begin()), std::make_move_iterator(items.end())); }
 	static size_t removeKey(Cont& c, int k) { Key key(k); return c.Remove(key); }
 	static size_t removePred(Cont& c, int m, int r) { return c.Remove([m, r] (const Key& key, const Val&) { filtPoint(); return key.k % m == r; }); }
 	static KI extItem(const Ext& e) { return KI(e.GetKey().k, e.GetValue().id); }
@@ -520,7 +567,7 @@ struct Run {
 		s.op("dropext"); s.res("ok"); dumpLed();
 	}
 	void opCopy(int a, int b) {
-		if (a == b || Cf::unsafeRepl) return;
+		if (a == b || Cf::unsafeRepl || Cf::keyCtor) return;
 		strongOp("copy", 0, b,
 			[&] (Kind kind, long kk) { return fmt("copy %d %d %s", a, b, fstr(kind, kk).c_str()); },
 			[&] { slots[b] = slots[a]; return fmt("n=%zu", slots[b].GetCount()); },
@@ -710,6 +757,28 @@ int main(int argc, char** argv)
 	runCfg<MapCf<KU, VC, momo::TreeNode<2, 1, P1, true>, true, false, false, false, true>>(c, "tf_map_unsafe_c2", 14, true, 16, 900);
 	runCfg<SetCfStd<KM, momo::TreeNode<3, 1, P1, true>, false, true, true>>(c, "tf_set_nm_c3_stdtraits", 15, true, 24, 780);
 	runCfg<SetCfStd<KC, momo::TreeNode<2, 2, P1, true>, true, false, false>>(c, "tf_multiset_co_c2_stdtraits", 16, true, 16, 780);
+#endif
+#if TF_PART == 0 || TF_PART == 6
+	{	// copy-and-swap items: contiguous nodes (pvShiftNothrow / pvAssignAnyway swap variants, Node::pvRemove rollback). For the model
+		// this is the category reloc=0 assign=1: one `ctor` step per relocation, replacement cannot throw.
+		typedef momo::internal::ObjectManager<KS, TFMM> OS; typedef momo::internal::ObjectManager<VS, TFMM> OV; typedef momo::internal::ObjectManager<KSU, TFMM> OU;
+		static_assert(!OS::isNothrowRelocatable && OS::isNothrowSwappable && OS::isNothrowAnywayAssignable && OS::isNothrowShiftable && !std::is_nothrow_move_assignable<KS>::value, "KS category");
+		static_assert(!OV::isNothrowRelocatable && OV::isNothrowSwappable && !std::is_nothrow_move_assignable<VS>::value, "VS category");
+		static_assert(!OU::isNothrowRelocatable && OU::isNothrowSwappable && !std::is_nothrow_move_assignable<KSU>::value, "KSU category");
+		typedef SetCf<KS, momo::TreeNode<4, 1, P1, true>, true, false, false, true> CfS4;
+		typedef SetCf<KS, momo::TreeNode<2, 1, P1, true>, false, true, false, true> CfS2;
+		typedef MapCf<IK, VS, momo::TreeNode<3, 1, P1, true>, true, false, false, true, false> CfMV;
+		typedef MapCf<KSU, VM, momo::TreeNode<2, 1, P1, true>, false, false, false, true, false> CfMK;
+		static_assert(CfS4::Set::Node::isContinuous && CfS2::Set::Node::isContinuous && CfMV::Set::Node::isContinuous && CfMK::Set::Node::isContinuous, "contiguous nodes expected");
+		static_assert(!SetCf<KA, momo::TreeNode<4, 2, P1, true>, true, false, false, true>::Set::Node::isContinuous, "copy-only items use indexed nodes");
+		long sw0 = g.swaps;
+		runCfg<CfS4>(c, "tf_set_sw_c4", 17, true, 30, 780);
+		runCfg<CfS2>(c, "tf_multiset_sw_c2", 18, true, 16, 780);
+		runCfg<CfMV>(c, "tf_map_swval_c3", 19, true, 24, 780);
+		runCfg<CfMK>(c, "tf_map_swkey_c2", 20, true, 16, 780);
+		c.stats.count("swap_calls", (uint64_t)(g.swaps - sw0));
+		if (g.swaps == sw0) c.fail("C04 harness: the copy-and-swap configurations never called swap (the contiguous-node paths were not reached)");
+	}
 #endif
 	return c.finish();
 }
